@@ -12,7 +12,9 @@ class C04(Prop):
         "Stgutg.Props.C04.constrained_whole_number", "Stgutg.Props.C04.length_determinant",
         "Stgutg.Props.C04.integer_roundtrip", "Stgutg.Props.C04.enumerated_roundtrip",
         "Stgutg.Props.C04.octet_string_roundtrip", "Stgutg.Props.C04.string_roundtrip",
-        "Stgutg.Props.C04.bit_string_roundtrip",
+        "Stgutg.Props.C04.bit_string_roundtrip", "Stgutg.Props.C04.fragmented_octets_roundtrip",
+        "Stgutg.Proofs.AperRT.RT_octItems", "Stgutg.Proofs.AperRT.RT_bitItems", "Stgutg.Proofs.AperRT.RT_openItems",
+        "Stgutg.Proofs.AperRT.RT_openType_any",
         "Stgutg.Props.C04.composite_roundtrip", "Stgutg.Props.C04.never_empty", "Stgutg.Props.C04.roundtrip_marshal",
         "Stgutg.Props.C04.ngap_schema_rtOK", "Stgutg.Props.C04.C04_roundtrip_pdu", "Stgutg.Props.C04.C04_reencode_pdu",
         "Stgutg.Props.C04.C04_roundtrip_container", "Stgutg.Props.C04.ngSetupRequest_conf",
@@ -20,7 +22,8 @@ class C04(Prop):
     ]
     domains = [Domain("aper-rt", 600, 30000)]
     rule = ("aper-rt: constraint-satisfying random values of NGAPPDU (60%), transfer containers (20%) and arbitrary ngapType types (20%), "
-            "plus every leaf wrapper type at boundary values, through Marshal -> Unmarshal -> field-by-field comparison (aperrt) and "
+            "plus every leaf wrapper type at boundary values, strings of fragmented lengths (16383 … 131072 items) for every leaf string type "
+            "with a general length and PDUs carrying one such string (fragmented open types), through Marshal -> Unmarshal -> field-by-field comparison (aperrt) and "
             "Unmarshal -> Marshal -> byte comparison of the library's own encodings (aperre); "
             "non-trivial = value with at least 12 tokens; distinct by op line")
     level_text = ("Round-trip theorems for the codec model (decode inverts encode) + differential run of the real encoder/decoder "
